@@ -8,6 +8,16 @@ P = {
  "C01": ("differential runtime monitor: num-bigint reference model + storage-layout invariant hook over structured random/directed operands",
          "Runtime monitoring: millions of add/sub/mul/sqr/cubic/pow executions of the real code (every ownership form, UBig/IBig/mixed/primitive operands, sizes on both sides of the inline/heap and schoolbook/Karatsuba/Toom-3 thresholds) each compared in full with an independent bignum model; site counters prove which multiplication strategy produced each observed result. Held on the executions observed, not a proof.",
          "Trusts num-bigint 0.4 arithmetic and dashu's as_words()/from_words() accessors (cross-checked against to_le_bytes).", "DESIGN.md §4 C01"),
+
+ "C02": ("differential runtime monitor: num-bigint div_rem reference + identity a=q*b+r re-evaluated by model multiplication, all division forms cross-checked",
+         "Runtime monitoring of every division form (/, %, div_rem, Euclidean forms, div_rem_assign, mixed UBig/IBig, primitive divisors/dividends, ConstDivisor) on divisor classes and crafted q*b+r dividends around the word/dword/32-word thresholds; zero divisors must panic. Held on the executions observed.",
+         "Trusts num-bigint division only for the expected value; identity, remainder range and sign are re-derived with multiplication.", "DESIGN.md §4 C02"),
+ "C09": ("differential runtime monitor: num-bigint two's-complement BigInt reference (floor shift) over boundary bit positions",
+         "Runtime monitoring of & | ^ ! << >>, bit/set_bit/clear_bit, trailing_zeros/ones, count_ones/zeros, bit_len, split_bits, clear_high_bits, power-of-two helpers and UBig::ones with operands of exactly 0..3 limbs, all-ones / zero-low-limb patterns and positions 0,1,63,64,65,k*64, at and beyond the length; mixed and primitive forms compared with 'convert both to IBig'.",
+         "Trusts num-bigint's BigInt bit operators (self-tested on small values).", "DESIGN.md §4 C09"),
+ "C12": ("runtime monitor evaluating defining inequalities with model powers, num-bigint gcd, and an own interval-arithmetic log2 enclosure",
+         "Runtime monitoring of gcd/gcd_ext (Bezout identity), sqrt/cbrt/nth_root (+_rem), ilog, remove and log2_bounds (big integers, rationals, floats, every u8/u16 exhaustively, random wider primitives and f32/f64 patterns); inputs built by reverse Euclid (maximal Lehmer steps, oversized quotients), perfect powers +-1, base^e +-1; log2 bounds decided by a 96..512-bit outward-rounded enclosure (undecided cases are counted inconclusive).",
+         "Trusts num-bigint gcd/pow and the harness' own interval ln (self-tested against f64::ln each run; validated against mpmath during development).", "DESIGN.md §4 C12"),
 }
 NOT_YET = "monitor not built yet in this round (design in DESIGN.md §4); no claim is made until its check exists and is silent on the unchanged tree"
 
